@@ -47,6 +47,34 @@ def cyclic(draw):
     return src
 
 
+@st.composite
+def value_cycles(draw):
+    """Well-formed programs whose *values* are cyclic: locals/ivars assigned in a ring, mutually recursive methods, self-containing literals."""
+    n = draw(st.integers(1, 4))
+    kind = draw(st.sampled_from(["locals", "ivars", "methods", "mixed", "literal"]))
+    lines = []
+    if kind in ("locals", "ivars"):
+        pre = "" if kind == "locals" else "@"
+        names = [pre + x for x in ["va", "vb", "vc", "vd"][:n]]
+        lines.append("def cyc(q)")
+        for i, v in enumerate(names):
+            lines.append("  %s = %s" % (v, names[(i + 1) % n]))
+        if draw(st.booleans()):
+            lines.append("  %s = %s + 1" % (names[0], names[-1]))
+        lines.append("  " + names[draw(st.integers(0, n - 1))])
+        lines += ["end", "dbtp cyc(1)"]
+    elif kind == "methods":
+        names = ["ma", "mb", "mc", "md"][:n]
+        for i, m in enumerate(names):
+            lines += ["def %s(x)" % m, "  %s(x)" % names[(i + 1) % n], "end"]
+        lines.append("dbtp %s(1)" % names[0])
+    elif kind == "mixed":
+        lines += ["def ma(x)", "  y = mb(x)", "  y", "end", "def mb(x)", "  z = ma(x)", "  z = z", "  z", "end", "r = ma(1)", "r = r", "dbtp r"]
+    else:
+        lines += ["a = [1]", "a = [a]", "a.push(a)", "h = {k: 1}", "h[:k] = h", "dbtp a", "dbtp h", "b = a", "a = b", "dbtp b"]
+    return "\n".join(lines) + draw(st.sampled_from(["\n", ""]))
+
+
 def open_at_eof(src):
     """Does the input end inside an open construct (approximate, for classification only)?"""
     toks = mutate.tokens(src)
@@ -72,7 +100,7 @@ class Check(Prop):
     RULE = ("cases = (source bytes, flags in {none,-i}); enumerated: regression inputs that hung the pinned tree and every token "
             "prefix cut of a fixed corpus subset crossed with truncation tails (unterminated comment/string/%-literal/heredoc, open "
             "def/class/case-in/block/bracket); generated: truncated and mutated corpus programs, hostile fragments, cyclic "
-            "inheritance/include/extend graphs of length 1-4 followed by ancestor-walking calls. Oracle: the analysis finishes; an "
+            "inheritance/include/extend graphs of length 1-4 followed by ancestor-walking calls, value cycles (locals/ivars assigned in a ring, mutually recursive methods, self-containing literals) and whole grammar-generated programs. Oracle: the analysis finishes; an "
             "in-process deadline expiry is only a trigger - a hang is believed when the guard-off binary prints `timeout` (or is "
             "killed) 3 out of 3 times while holding the machine-wide exclusive lock. Stack overflow / out-of-memory fatal errors "
             "count as non-termination. Non-trivial = ends inside an open construct or declares a cycle; distinct by SHA-1.")
@@ -109,7 +137,9 @@ class Check(Prop):
         texts = self.texts
         trunc = st.builds(lambda pre, tail: pre + tail, mutate.prefix_of(texts), st.sampled_from(TRUNC_TAILS))
         frag_trunc = st.builds(lambda a, tail: a + tail, mutate.fragments(6), st.sampled_from(TRUNC_TAILS))
-        src = st.one_of(trunc, trunc, mutate.mutated(texts), frag_trunc, cyclic(), cyclic(), mutate.raw_latin1(128))
+        from .. import rb
+        whole = rb.program(max_stmts=8, case_in=True, errors=0.15).map(lambda p: rb.render(p["tree"]))
+        src = st.one_of(trunc, trunc, mutate.mutated(texts), frag_trunc, cyclic(), cyclic(), value_cycles(), whole, mutate.raw_latin1(128))
         return st.fixed_dictionaries({"src": src, "flags": st.sampled_from([[], ["-i"]])})
 
     def sample(self, case):
@@ -122,7 +152,8 @@ class Check(Prop):
         sb = rt.sandbox()
         try:
             labels = []
-            is_cycle = bool(re.search(r"class (\w+) < \1\b", src)) or "Ca" in src and ("< C" in src or "include C" in src or "extend C" in src)
+            is_cycle = bool(re.search(r"class (\w+) < \1\b", src)) or "Ca" in src and ("< C" in src or "include C" in src or "extend C" in src) \
+                or "def cyc(" in src or "def ma(" in src or "a = [a]" in src
             if is_cycle:
                 labels.append("cycle")
             opened = open_at_eof(src)
